@@ -59,6 +59,32 @@ NOTES = {
  "C19-r2-2": "missed at first (the refresh scenario only used a shared entry); caught after the scoped variants: a hit on an entry stored under an ECS scope must not reach upstream in the background",
  "C20-r2-1": "missed at first; caught after one case in three is served as the worker's replay pass (Chain.SetReplay)",
  "C20-r2-3": "missed at first; caught after the well-known prefix is also configured as the fallback of an omitted / all-unusable prefix list",
+ "C01-r3-1": "missed by C01 (no empty non-terminal NXDOMAIN in its kinds), caught by C02 (zone ent)",
+ "C01-r3-2": "missed by C01, caught by C04 (RRSIG expiry bounds a cached negative answer)",
+ "C01-r3-3": "missed by C01, caught by C06 (AD on a synthesised denial toward a client that set neither DO nor AD: EcsDenial tier)",
+ "C02-r3-1": "missed at first (the aggressive lookup was one atomic step in both cache models); caught after DenialProof.tla got the Race dimension and lookups are held on the real pipeline while a conflicting admission is forced",
+ "C02-r3-2": "the same edit as C01-r2-1: missed by C02 (its replay feeds the verifiers below the resolver's filter), caught by C01 (wildforeign)",
+ "C02-r3-3": "missed by C02 and C04, caught by C06 (ComposedAD)",
+ "C03-r3-1": "missed at first (symbolic scopes, one IPv6 client); caught by the EcsAud tier (per-family floors at bit level)",
+ "C03-r3-2": "missed at first (the scripted terminal always echoed CD); caught by the EcsAud tier (an upstream that clears / sets CD, the real forwarder)",
+ "C03-r3-3": "missed at first (empty allow-list, fixed peer form); caught by the EcsAud tier (client_networks and IPv4-mapped peers)",
+ "C04-r3-1": "missed at first (nothing composed DNS64 with the cache); caught by Lease64.tla",
+ "C05-r3-1": "missed at first (Serve.tla had no clock and no failure record); caught by the ladder family",
+ "C05-r3-3": "missed at first (one name per behaviour: no subtree cut for a declined hit to fall into); caught by the ladder family",
+ "C06-r3-2": "missed at first (C06 never drove the forwarder / failover chain); caught by the Forward echo family",
+ "C07-r3-1": "missed at first; caught after the move kind dname_out (DNAME at the zone apex, synthesised CNAME, forged record for the out-of-zone target)",
+ "C07-r3-3": "missed at first; caught by the level tier added for fix 20 (race-free deep scripts)",
+ "C09-r3-2": "missed at first (histories kept the key valid for less than the removal hold-down before it went missing); caught by the directed history MissingAfterLong",
+ "C12-r3-1": "missed at first (the model could only latch the ledger on the outbound budget); caught by the Forward prework dimension",
+ "C16-r3-2": "missed at first (the positive / negative sub-caches were not driven); caught by ExpCache.tla + Trace_ExpMap",
+ "C16-r3-3": "missed at first (LimStore was single-writer); caught by LimConc.tla + Trace_LimConc",
+ "C17-r3-1": "missed at first (C17 never ran the RateLimit tier; no internal chase); caught by the RateLimit chase family",
+ "C17-r3-2": "missed at first (the gate replay excluded loopback sources and had no transports); caught by the Gate sentinel family on real sockets",
+ "C18-r3-1": "missed at first (Refresh was only enabled without a temp file); caught after Refresh may run at every point of a persist",
+ "C18-r3-2": "missed at first (no I/O faults anywhere); caught by the fault steps and PreviousFileKept",
+ "C20-r3-1": "missed at first (request-local rows were scripted marks); caught after the shed rows run the real resolver handler",
+ "C20-r3-2": "missed at first (no failure record in the model); caught by Lease64.tla's failure dimension (wire-born route)",
+ "C20-r3-3": "the same site as C04-r3-1; caught by C20's decision table and by Lease64",
 }
 rows = []
 for p in sorted(glob.glob(os.path.join(V, "seeded", "*", "meta.json"))):
